@@ -26,6 +26,14 @@ fn program(kind: &str, quick: bool, idx: usize) -> Option<(Prog, String, String)
             let (kinds, target, gosub) = all.get(idx)?.clone();
             Some((escape_program(&kinds, target, gosub), format!("loops {:?} target level {} {}", kinds, target, if gosub { "GOSUB" } else { "GOTO" }), format!("{} from depth {} to level {}", if gosub { "GOSUB" } else { "GOTO" }, kinds.len(), target)))
         }
+        "into" => {
+            let kind = idx / 4;
+            if kind >= INTO_KINDS.len() {
+                return None;
+            }
+            let (in_sub, twice) = (idx % 2 == 1, (idx / 2) % 2 == 1);
+            Some((jump_into_program(kind, in_sub, twice), format!("GOTO into {}{}{}", INTO_KINDS[kind], if in_sub { ", inside a SUB" } else { "" }, if twice { ", three times" } else { "" }), format!("{}|{}|{}", INTO_KINDS[kind], in_sub, twice)))
+        }
         "fault" => {
             let all = fault_cases();
             let (f, c, p, h, ch) = *all.get(idx)?;
@@ -53,6 +61,7 @@ fn total(kind: &str, quick: bool) -> usize {
     match kind {
         "jump" | "jump-sub" => jump_layouts(quick).len(),
         "escape" => escape_cases().len(),
+        "into" => 4 * INTO_KINDS.len(),
         "fault" => fault_cases().len(),
         "hhist" => handler_history_count(if quick { 4 } else { 6 }) as usize,
         _ => 0,
@@ -111,7 +120,7 @@ pub fn drive(tier: &str) -> i32 {
     let mut cases = vec![];
     let mut plan = vec![];
     let mut states = 0u64;
-    for kind in ["escape", "fault", "hhist", "jump", "jump-sub"] {
+    for kind in ["escape", "into", "fault", "hhist", "jump", "jump-sub"] {
         let t = total(kind, quick);
         let chunk = 40;
         let mut lo = 0;
@@ -131,7 +140,7 @@ pub fn drive(tier: &str) -> i32 {
         run.capped = true;
     }
     let mut ev = Evidence::new("model_checking");
-    ev.set("rule", "jump layouts: up to 3 labelled blocks in every order (quick: two orders for 3 blocks), each ending in fall-through / END / RETURN / GOTO x / GOSUB x / RETURN x for every x, entered by fall-through or by GOTO, at module level and inside a SUB, every block counting its executions (the program stops after 7). loop escapes: every nest of 1..3 loops over {FOR, FOR STEP -1, WHILE, DO..LOOP UNTIL} with pairwise distinct bounds, a GOTO from the innermost body to a label in the body of every shallower level and after the nest, a GOSUB to a routine after the nest. one fault: 8 failing statement kinds x 17 containers (main, IF / ELSE / ELSEIF blocks, single-line IF, first / middle / ELSE CASE blocks, FOR / FOR STEP / WHILE / DO bodies, an IF block that ends a FOR body, SUB and FUNCTION bodies, the end of the module with subprograms following) x 3 positions x 6 handler modes x handler action. handler histories: the full tree of sequences up to the depth over {ON ERROR GOTO H1, ON ERROR GOTO H2, ON ERROR GOTO 0, ON ERROR RESUME NEXT, failing statement, trace}. Every program is one path of the reference machine (explicit GOSUB stack, handler mode, pending error) replayed on the implementation; trace output, ERR values and the end state with its row are compared.");
+    ev.set("rule", "jump layouts: up to 3 labelled blocks in every order (quick: two orders for 3 blocks), each ending in fall-through / END / RETURN / GOTO x / GOSUB x / RETURN x for every x, entered by fall-through or by GOTO, at module level and inside a SUB, every block counting its executions (the program stops after 7). loop escapes: every nest of 1..3 loops over {FOR, FOR STEP -1, WHILE, DO..LOOP UNTIL} with pairwise distinct bounds, a GOTO from the innermost body to a label in the body of every shallower level and after the nest, a GOSUB to a routine after the nest; the same with IF / ELSE / CASE / CASE ELSE blocks between the loops. jumps into a block: GOTO to a label in the middle of an IF / ELSEIF / ELSE / CASE / CASE ELSE block, a WHILE / DO body or an IF inside a WHILE, at module level and inside a SUB, once and three times in a row. one fault: 8 failing statement kinds x 17 containers (main, IF / ELSE / ELSEIF blocks, single-line IF, first / middle / ELSE CASE blocks, FOR / FOR STEP / WHILE / DO bodies, an IF block that ends a FOR body, SUB and FUNCTION bodies, the end of the module with subprograms following) x 3 positions x 6 handler modes x handler action. handler histories: the full tree of sequences up to the depth over {ON ERROR GOTO H1, ON ERROR GOTO H2, ON ERROR GOTO 0, ON ERROR RESUME NEXT, failing statement, trace}. Every program is one path of the reference machine (explicit GOSUB stack, handler mode, pending error) replayed on the implementation; trace output, ERR values and the end state with its row are compared.");
     ev.set("exhaustive", !run.capped);
     ev.set("plan", json!(plan));
     ev.set("states", states);
